@@ -15,17 +15,21 @@ Definition deg_ok (t : terms) (d : option nat) : Prop :=
 Definition BInv (m : model) : Prop :=
   kd m <> KDict -> NoDup (vars_c m) /\ labels_in (tm m) (vars_c m) /\ deg_ok (tm m) (deg_c m).
 (* BO layer: mapping is a bijection between exactly the reported variables and 0..n-1 *)
+(* the integers of a mapping: pairwise different and below the number of entries -- a permutation of 0..n-1 (the order in which
+   they were handed out is not part of the invariant: set_mapping may renumber) *)
+Definition snd_ok (mpx : list (label * nat)) : Prop :=
+  NoDup (map snd mpx) /\ forall n, In n (map snd mpx) -> (n < length mpx)%nat.
 Definition LInv (m : model) : Prop :=
   is_labelled (kd m) = true ->
   (forall i, In i (map fst (mp m)) <-> In i (vars_c m)) /\ NoDup (map fst (mp m))
-  /\ map snd (mp m) = seq 0 (length (mp m)) /\ next_label m = length (mp m).
+  /\ snd_ok (mp m) /\ next_label m = length (mp m).
 Definition Inv (m : model) : Prop := BInv m /\ LInv m.
 
 Lemma Inv_empty k : Inv (empty_model k).
 Proof.
   split.
   - intros _. simpl. split; [constructor|]. split; [intros ? ? ? []| intros ? ? []].
-  - intros _. simpl. split; [intros i; tauto|]. split; [constructor|]. split; reflexivity.
+  - intros _. simpl. split; [intros i; tauto|]. split; [constructor|]. split; [split; [constructor| intros n []]| reflexivity].
 Qed.
 
 (* ------------------------------------------------------------ squash ---- *)
@@ -85,7 +89,7 @@ Proof.
 Qed.
 
 Definition MInv (mpx : list (label * nat)) (nl : nat) : Prop :=
-  NoDup (map fst mpx) /\ map snd mpx = seq 0 (length mpx) /\ nl = length mpx.
+  NoDup (map fst mpx) /\ snd_ok mpx /\ nl = length mpx.
 
 Lemma register_spec vs raw : forall mpx nl, MInv mpx nl ->
   let '(mp', nl') := register vs raw mpx nl in
@@ -103,7 +107,10 @@ Proof.
       * assert (HM' : MInv (mpx ++ [(x, nl)]) (S nl)).
         { destruct HM as (N & S0 & L). subst nl. split; [|split].
           - rewrite map_app. simpl. apply NoDup_snoc; assumption.
-          - rewrite map_app, app_length, S0. simpl. rewrite Nat.add_1_r, seq_S. simpl. reflexivity.
+          - destruct S0 as [Sn Sb]. split.
+            + rewrite map_app. simpl. apply NoDup_snoc; [exact Sn|]. intros Hc. specialize (Sb _ Hc). lia.
+            + intros n0 Hn0. rewrite map_app, in_app_iff in Hn0. rewrite app_length. simpl.
+              destruct Hn0 as [Hn0|[E0|[]]]; [apply Nat.lt_lt_add_r; exact (Sb _ Hn0)| rewrite <- E0; apply Nat.lt_add_pos_r; constructor].
           - rewrite app_length. simpl. lia. }
         specialize (IH _ _ HM'). destruct (fold_left _ raw _) as [mp' nl'].
         destruct IH as [A B]. split; [exact A|]. intros i. rewrite B, map_app, in_app_iff. simpl.
@@ -331,12 +338,31 @@ Theorem Inv_bijection m : Inv m -> is_labelled (kd m) = true ->
   forall i n, mp_get i (mp m) = Some n <-> rmp_get n (mp m) = Some i.
 Proof.
   intros [B L] Hl. destruct (L Hl) as (S1 & N1 & S2 & NL).
-  apply mp_rmp_inverse; [exact N1|]. rewrite S2. apply seq_NoDup.
+  apply mp_rmp_inverse; [exact N1| exact (proj1 S2)].
 Qed.
 
 Theorem Inv_range m : Inv m -> is_labelled (kd m) = true ->
   forall n, In n (map snd (mp m)) <-> (n < num_vars m)%nat.
 Proof.
   intros HI Hl n. destruct (Inv_counts m HI Hl) as [Hc _]. destruct HI as [B L].
-  destruct (L Hl) as (S1 & N1 & S2 & NL). rewrite S2, in_seq, Hc. lia.
+  destruct (L Hl) as (S1 & N1 & [Sn Sb] & NL). rewrite <- Hc. split; [apply Sb|].
+  (* pairwise different numbers below the length: every number below the length occurs *)
+  intros Hn. assert (Hincl : incl (seq 0 (length (mp m))) (map snd (mp m))).
+  { apply NoDup_length_incl; [exact Sn| rewrite seq_length, map_length; lia|].
+    intros a Ha. apply in_seq. specialize (Sb a Ha). lia. }
+  apply Hincl, in_seq. lia.
+Qed.
+
+(* a renumbering of the variables (set_mapping / set_reverse_mapping with the model's own labels and a permutation of 0..n-1)
+   keeps the invariant, so everything proved from it -- enumerated forms, convert_solution, the annealers' front ends -- holds
+   for renumbered models as well *)
+Theorem set_mapping_Inv m mpx : Inv m -> is_labelled (kd m) = true ->
+  (forall i, In i (map fst mpx) <-> In i (map fst (mp m))) -> NoDup (map fst mpx) -> snd_ok mpx ->
+  Inv (set_mapping m mpx).
+Proof.
+  intros [B L] Hl Hsame Hnd Hs. split; [exact B|]. intros _. cbn [set_mapping mp vars_c next_label kd].
+  destruct (L Hl) as (S1 & N1 & S2 & NL).
+  split; [intros i; rewrite Hsame; apply S1|]. split; [exact Hnd|]. split; [exact Hs|].
+  rewrite NL. rewrite <- (map_length fst (mp m)), <- (map_length fst mpx).
+  apply Nat.le_antisymm; apply NoDup_incl_length; try assumption; intros i; apply Hsame.
 Qed.
